@@ -492,6 +492,14 @@ def parse (c : Ctx) (base len : Nat) : Ctx × Bool :=
   let (c, res) := parseLoop (len + 2) c base len none true
   ({ c with out := Result.writeNewLine c.out }, res)
 
+/-- SCPI_Parse(context, line, strlen(line)) on a complete NUL-terminated line that lives in an object of its own
+(`line ++ [0]`); the input buffer of the context is not involved.  Returns the context (input buffer as before), the
+line object afterwards (compound headers are composed in place) and the result. -/
+def parseLine (c : Ctx) (line : Bytes) : Ctx × Bytes × Bool :=
+  let c1 := { c with buf := line ++ [0], bufLen := line.length + 1, position := 0 }
+  let (c2, r) := parse c1 0 line.length
+  ({ c2 with buf := c.buf, bufLen := c.bufLen, position := c.position }, c2.buf, r)
+
 /-- store `data` at buf[at..] -/
 def poke (buf : Bytes) (at_ : Nat) (data : Bytes) : Bytes :=
   (data.zipIdx).foldl (fun b (x, k) => b.set (at_ + k) x) buf
